@@ -9,9 +9,21 @@ struct KnotC {
   i64 den = 1, off = 0;
   std::vector<i64> gaps;  // >= 0; zero = repeated knot. m = gaps.size()+1 knots
   i64 order = 0, type = 0;
+  std::vector<i64> gexp;  // if non-empty: a strongly GRADED knot vector 0, 2^-e_1 <= 2^-e_2 <= ... (exponents sorted descending), gaps ignored
   template <class A>
-  void io(A &a) { a("den", den); a("off", off); a("gaps", gaps); a("order", order); a("type", type); }
+  void io(A &a) { a("den", den); a("off", off); a("gaps", gaps); a("order", order); a("type", type); a("gexp", gexp); }
+  std::vector<i64> sorted_exp() const {
+    std::vector<i64> e = gexp;
+    for (auto &x : e) x = std::max<i64>(0, std::min<i64>(x, 100));
+    std::sort(e.begin(), e.end(), std::greater<i64>());
+    return e;
+  }
   std::vector<R> knots() const {
+    if (!gexp.empty()) {
+      std::vector<R> k{R(0)};
+      for (auto e : sorted_exp()) { R v(1); v >>= (unsigned long)e; k.push_back(v); }
+      return k;
+    }
     std::vector<R> k;
     i64 d = den < 1 ? 1 : den, x = off;
     k.push_back(R(x, d));
@@ -21,6 +33,14 @@ struct KnotC {
   }
   template <class T>
   std::vector<T> knotsT() const {
+    if (!gexp.empty()) {
+      std::vector<T> k{mk<T>(0)};
+      for (auto e : sorted_exp()) {
+        if constexpr (std::is_same_v<T, Q>) { R v(1); v >>= (unsigned long)e; k.push_back(vq::make(v)); }
+        else k.push_back(std::ldexp((T)1, -(int)e));
+      }
+      return k;
+    }
     std::vector<T> k;
     i64 d = den < 1 ? 1 : den, x = off;
     k.push_back(mk<T>(x, d));
@@ -97,6 +117,7 @@ static void gen_T(const KnotC &c, vf::Obs &o) {
   o.cls("p:" + std::to_string(p));
   o.cls(std::string("type:") + Scalar<T>::name);
   o.cls(maxmult == 1 ? "mult:simple" : maxmult <= p ? "mult:<=p" : maxmult == p + 1 ? "mult:p+1" : "mult:>p+1");
+  if (!c.gexp.empty()) o.cls("graded-mesh");
   if (want == 0) o.cls("no-function");
   if (want == 1) o.cls("one-function");
   o.nt(want >= 1 && (maxmult > 1 || !uniform || m <= p + 3 || absr(grid[0]) > 4));
@@ -292,6 +313,12 @@ static rc::Gen<KnotC> gen_knots(bool exact_only, int max_extra) {
     if (shape == 9) c.off = chance(50) ? hi : lo;
     else c.off = std::max(lo, std::min(hi, pick(-3 * c.den, 3 * c.den) - total / 2));
     if (shape == 9) for (auto &g : c.gaps) if (g > 0) g = 1;
+    if (chance(8) && c.type != 1) {
+      // strongly graded mesh: knot intervals from 2^-90 up to 1/2 in one vector (width ratios far beyond 1/eps), some repeated knots.
+      // Not for float: midpoint coefficients scale like h^-p, and 2^(90*3) is outside float's exponent range.
+      i64 cnt = p + 2 + pick(0, 6);
+      for (i64 i = 0; i < cnt; i++) c.gexp.push_back(chance(20) && !c.gexp.empty() ? c.gexp.back() : pick(0, exact_only ? 100 : 90));
+    }
     return c;
   });
 }
